@@ -7,6 +7,16 @@ BASELINE = ("cd /repo && (cargo nextest run --workspace --no-fail-fast --tool-co
 
 # id -> (level, technique, level text, note, design ref)
 CHECKS = {
+ "C14": ("exploration",
+         "model-based property testing over generated object-graph descriptions (exhaustive small DAG shapes + proptest graphs); oracle = pointer-equality partition before vs after the round trip, predicted anchor / alias token sequence, tree expansion for plain mirror types",
+         "All strong DAG shapes with <= 4 allocations x 4 variants, all weak-edge subsets for <= 2 allocations, every single weak edge for 3, random graphs with <= 10 allocations and <= 25 occurrences over Rc and Arc anchors with shared string leaves, weak edges to live and dropped targets and recursive links (self loop, parent pointer, rings), in sequence / map / nested-struct / Option positions under several serializer option vectors: the partition of wrapper occurrences by pointer equality, payloads, weak upgrade / dangling, link walks and re-serialised text are preserved; each shared class is defined once and aliased elsewhere; plain and mixed mirror types get equal independent copies. Exploration.",
+         "weak edges are only generated when the strong occurrence is complete earlier (documented precondition); compact_list_indent, empty_as_braces=false and indent_step=1 are outside the domain (C13 findings); one open finding (anchor lost on a block-scalar string - its repair is blocked by a test that pins the anchor-less output) is excluded by signature",
+         "DESIGN.md section 3 C14; notes/report-C14.md"),
+ "C15": ("exploration",
+         "stateful property-based testing: exhaustive call histories up to length 3 (4 over a core alphabet) + random histories to length 12 over 49 call kinds, every history on a fresh thread; oracle = each call's observation equals the same call alone on a fresh thread",
+         "Histories over 24 base calls (successful / failing mid-anchored-node / failing inside an anchor context / budget and alias limit at the exact limit / shared RcAnchors / missing- and unknown-field errors / root static error / caught panic / duplicate key / multi-document / reader / abandoned and exhausted iterators / serialisation with anchors and into a failing writer / validated parse) and 25 nested calls (a parse inside the Deserialize impl of a field of an outer document with anchors before / around / inside): every observation (variant, locations, rendered message, pointer classes - never addresses) equals the isolated one; isolated observations agree across two fresh threads and contain documented constants. All 120099 histories of length <= 3 and 614656 of length 4 over a core alphabet are enumerated.",
+         "observations are compared as strings built from variant, locations, messages and pointer-equality classes; Debug of validation errors (HashMap order) is not used",
+         "DESIGN.md section 3 C15; notes/report-C15.md"),
  "C05": ("exploration",
          "property-based testing over (run-time type, document) pairs with a reference interpreter as three-valued oracle (Must / MustErr / Free with patterns); documents generated from the type then perturbed at one node",
          "Random type descriptions (depth <= 4, all serde shapes incl. the four enum variant kinds, structs with / without deny_unknown_fields) with documents generated from a value of the type (bare / mapping / tagged enum notations, block and flow, CRLF, comments) and one of 18 perturbations at a random node (null / scalar / sequence / mapping / variant in place, extra / missing / first-missing element, extra / missing entry, renamed key, second variant entry, sequence<->mapping, quoting): an accepted value must match the position-faithful pattern computed by the harness' interpreter over the document AST, a shape mismatch must be rejected, a matching document must be accepted; a bare payload-variant name must not take its payload from a sibling. Exploration (150 k pairs quick, 2 M thorough).",
